@@ -659,3 +659,111 @@ for _n in range(0, 4):
           bounded=f'{_n} options',
           note=f'bounded: option lists of length {_n} (every type code and value length 0..255 symbolic); termination and absence of '
                'exceptions of the decoder on arbitrary bytes are in the contract of decode_configuration_options')
+
+
+# ---------------------------------------------------------------------------
+# RFCOMM multiplexer commands PN (TS 07.10 5.4.6.3.1 + RFCOMM 5.5.3) and MSC (5.4.6.3.7)
+# ---------------------------------------------------------------------------
+from bumble import rfcomm  # noqa: E402
+
+
+def lemma_pn_fields(dlci, cl, priority, ack_timer, max_frame_size, max_retransmissions, initial_credits):
+    pn = rfcomm.RFCOMM_MCC_PN(dlci=dlci, cl=cl, priority=priority, ack_timer=ack_timer, max_frame_size=max_frame_size,
+                              max_retransmissions=max_retransmissions, initial_credits=initial_credits)
+    b = bytes(pn)
+    assert len(b) == 8
+    assert b[0] == dlci and b[1] == cl and b[2] == priority and b[3] == ack_timer
+    assert b[4] == max_frame_size % 256 and b[5] == max_frame_size // 256  # N1, least significant octet first
+    assert b[6] == max_retransmissions and b[7] == initial_credits
+    q = rfcomm.RFCOMM_MCC_PN.from_bytes(b)
+    assert q == pn
+    assert bytes(q) == b
+
+
+lemma('rfcomm_pn_fields_roundtrip', lemma_pn_fields, prop='C18',
+      params=dict(dlci=IntRange(0, 63), cl=IntRange(0, 255), priority=IntRange(0, 63), ack_timer=IntRange(0, 255), max_frame_size=IntRange(0, 0xFFFF),
+                  max_retransmissions=IntRange(0, 255), initial_credits=IntRange(0, 7)),
+      inline=['RFCOMM_MCC_PN.*'])
+
+
+def lemma_pn_bytes(b):
+    q = rfcomm.RFCOMM_MCC_PN.from_bytes(b)
+    assert bytes(q) == b
+
+
+lemma('rfcomm_pn_bytes_roundtrip', lemma_pn_bytes, prop='C18', params=dict(b=BytesN(8)),
+      # well-formed: the five reserved bits of the last octet are zero (only 3 bits of credits are meaningful)
+      requires=lambda b: at(b, 7) <= 7, inline=['RFCOMM_MCC_PN.*'])
+
+
+def lemma_msc_fields(dlci, fc, rtc, rtr, ic, dv):
+    m = rfcomm.RFCOMM_MCC_MSC(dlci=dlci, fc=fc, rtc=rtc, rtr=rtr, ic=ic, dv=dv)
+    b = bytes(m)
+    assert len(b) == 2
+    assert b[0] == dlci * 4 + 3  # EA = 1, C/R = 1, DLCI in bits 2..7
+    assert b[1] == 1 + 2 * fc + 4 * rtc + 8 * rtr + 64 * ic + 128 * dv  # EA, FC, RTC, RTR, (reserved 0 0), IC, DV
+    q = rfcomm.RFCOMM_MCC_MSC.from_bytes(b)
+    assert q == m
+    assert bytes(q) == b
+
+
+lemma('rfcomm_msc_fields_roundtrip', lemma_msc_fields, prop='C18',
+      params=dict(dlci=IntRange(0, 63), fc=IntRange(0, 1), rtc=IntRange(0, 1), rtr=IntRange(0, 1), ic=IntRange(0, 1), dv=IntRange(0, 1)),
+      inline=['RFCOMM_MCC_MSC.*'])
+
+
+def lemma_msc_bytes(b):
+    q = rfcomm.RFCOMM_MCC_MSC.from_bytes(b)
+    assert bytes(q) == b
+
+
+lemma('rfcomm_msc_bytes_roundtrip', lemma_msc_bytes, prop='C18', params=dict(b=BytesN(2)),
+      # well-formed: EA and C/R bits of the address octet set, EA bit of the signals octet set, reserved bits 4-5 zero
+      requires=lambda b: [at(b, 0) % 4 == 3, at(b, 1) % 2 == 1, (at(b, 1) // 16) % 4 == 0], inline=['RFCOMM_MCC_MSC.*'])
+
+
+# ---------------------------------------------------------------------------
+# RTP media packets with 4..15 CSRC words (0..3 are in c18_codecs.py): the CSRC count is a 4-bit field, so 0..15 is
+# every value it can take
+# ---------------------------------------------------------------------------
+from bumble import rtp  # noqa: E402
+
+RTP_INLINE = ['MediaPacket.*']
+
+
+def lemma_rtp_fields_many(version, padding, extension, marker, sequence_number, timestamp, ssrc, csrc_list, payload_type, payload):
+    # same statement as lemma_rtp_fields of c18_codecs.py, with the CSRC words compared one by one first (proof hints)
+    p = rtp.MediaPacket(version, padding, extension, marker, sequence_number, timestamp, ssrc, csrc_list, payload_type, payload)
+    b = bytes(p)
+    assert len(b) == 12 + 4 * len(csrc_list) + len(payload) and b[0] % 16 == len(csrc_list)
+    q = rtp.MediaPacket.from_bytes(b)
+    assert q.version == version and q.padding == padding and q.extension == extension and q.marker == marker
+    assert q.sequence_number == sequence_number and q.timestamp == timestamp and q.ssrc == ssrc
+    assert q.payload_type == payload_type and q.payload == payload
+    assert len(q.csrc_list) == len(csrc_list)
+    for i in range(len(csrc_list)):
+        assert q.csrc_list[i] == csrc_list[i]
+    assert q.csrc_list == csrc_list
+    assert bytes(q) == b
+
+
+for _n in range(4, 16):
+    lemma(
+        f'rtp_fields_roundtrip_csrc{_n}',
+        lemma_rtp_fields_many,
+        prop='C18',
+        params=dict(
+            version=IntRange(0, 3),
+            padding=IntRange(0, 1),
+            extension=IntRange(0, 1),
+            marker=IntRange(0, 1),
+            sequence_number=IntRange(0, 0xFFFF),
+            timestamp=IntRange(0, 0xFFFFFFFF),
+            ssrc=IntRange(0, 0xFFFFFFFF),
+            csrc_list=ConcList(IntRange(0, 0xFFFFFFFF), _n),
+            payload_type=IntRange(0, 127),
+            payload=Bytes,
+        ),
+        inline=RTP_INLINE,
+        note=f'CSRC count {_n} (with c18_codecs.py: every value 0..15 of the 4-bit count field)',
+    )
